@@ -33,6 +33,7 @@ fn main() {
         .and_then(|s| s.parse::<u64>().ok())
         .unwrap_or(0);
     let mut thorough = std::env::var("VERIF_TIER").map(|t| t == "thorough").unwrap_or(false);
+    let child = args.iter().any(|a| a == "--child");
     let mut i = 1;
     while i < args.len() {
         if args[i] == "--tier" && i + 1 < args.len() {
@@ -71,7 +72,7 @@ fn main() {
         }
     } else {
         let tier = Tier { thorough, seed };
-        match checks::run(&args[0], &tier) {
+        match checks::run(&args[0], &tier, child) {
             Ok(c) => c,
             Err(e) => {
                 eprintln!("MACHINERY-ERROR: {}", e);
